@@ -9,6 +9,7 @@ from pyvc.vc import Ob, Check
 from spec import c11
 
 M_VT = "rzilcompiler.Transformer.ValueType"
+WORKERS = int(os.environ.get("VERIF_WORKERS", str(min(16, os.cpu_count() or 8))))
 T8 = c11.T8
 TX = T8 + [(s, w) for w in (1, 2, 4, 128, 1024, 2048) for s in (True, False)]
 
@@ -124,7 +125,7 @@ def _mutant_worker(a):
     return {"mutant": m["name"], "failed": failed, "undecided_paths": len(sink.undecided)}
 
 
-def run_mutants(check: Check, mutants, module, func, repo="/repo", workers=8):
+def run_mutants(check: Check, mutants, module, func, repo="/repo", workers=WORKERS):
     """Mutant self-test: each source mutation (applied in memory to the text the generator
     reads) must make at least one obligation fail.  module.func(loader, sink) produces the
     obligations; replay is skipped (the native code is not mutated)."""
